@@ -4,7 +4,9 @@ package c16
 import (
 	"bytes"
 	"fmt"
+	"runtime"
 	"sync"
+	"sync/atomic"
 	"testing"
 	"time"
 
@@ -60,6 +62,9 @@ type Rec struct {
 	Content int    `json:"content"` // content size in bytes
 	Dt      int64  `json:"dt"`      // time increment (ms) relative to the previous record
 	Seed    uint64 `json:"seed"`    // fills tags / fields
+	// Bad: a record that cannot be encoded (its tag map is nil, as in a struct literal that bypassed the constructor):
+	// encoding it fails half way. Nothing is asserted about this record itself; the records around it must be unaffected.
+	Bad bool `json:"bad,omitempty"`
 }
 
 func mkRecord(r Rec, tm int64, id int64) *pack.LogSinkPack {
@@ -72,7 +77,16 @@ func mkRecord(r Rec, tm int64, id int64) *pack.LogSinkPack {
 	p.Content = string(b)
 	p.Time = tm
 	p.Line = id // unique id of the record within the case
+	if r.Bad {
+		p.Tags = nil
+	}
 	return p
+}
+
+// appendGuarded hands a record to Append; a panic that escapes to the caller for an unencodable record is not judged.
+func appendGuarded(z *zip.ZipSendProxyThread, p *pack.LogSinkPack) {
+	defer func() { recover() }()
+	z.Append(p)
 }
 
 func encodeRec(p *pack.LogSinkPack) []byte { return append([]byte(nil), pack.ToBytesPack(p)...) }
@@ -205,7 +219,7 @@ func runSeq(c SeqCase) *pbt.Result {
 		}
 		cur, curLen, first = nil, 0, 0
 	}
-	belowZip := 0
+	belowZip, badRecords := 0, 0
 	for _, op := range c.Ops {
 		switch op.K {
 		case "append":
@@ -213,6 +227,11 @@ func runSeq(c SeqCase) *pbt.Result {
 				tm += r.Dt
 				id++
 				p := mkRecord(r, tm, id)
+				if r.Bad {
+					appendGuarded(z, p)
+					badRecords++
+					continue
+				}
 				enc := encodeRec(p)
 				z.Append(p)
 				cur = append(cur, enc)
@@ -272,8 +291,11 @@ func runSeq(c SeqCase) *pbt.Result {
 			belowZip++
 		}
 	}
-	return &pbt.Result{NT: len(batches) >= 2 && belowZip >= 1,
-		Classes: []string{fmt.Sprintf("batches=%s", bucket(len(batches))), fmt.Sprintf("uncompressed-batches=%s", bucket(belowZip))}}
+	classes := []string{fmt.Sprintf("batches=%s", bucket(len(batches))), fmt.Sprintf("uncompressed-batches=%s", bucket(belowZip))}
+	if badRecords > 0 {
+		classes = append(classes, "unencodable-record-in-history")
+	}
+	return &pbt.Result{NT: len(batches) >= 2 && belowZip >= 1, Classes: classes}
 }
 
 func bucket(n int) string {
@@ -290,7 +312,7 @@ func bucket(n int) string {
 
 var specSeq = pbt.Register(pbt.Spec[SeqCase]{
 	Prop: "C16", Name: "append-histories",
-	Rule:  "histories of append / send-direct / flush on a fresh sender with generated settings (buffer 1..128 KiB, wait 1..10000 ms of record time, compression minimum 0..4 KiB) and a client that RETAINS the pack objects it is given; record contents 0..2x buffer, non-decreasing positive record times; oracle = a model of the flush rule gives the expected batches: emitted packs hold exactly those batches in order, RecordCount = records contained, payload decodes (after gunzip iff flagged) to the records handed in, compressed iff payload >= minimum, and every retained pack still serialises at the end to what it was at hand-over; non-trivial = >= 2 batches and >= 1 uncompressed batch; distinct by case",
+	Rule:  "histories of append / send-direct / flush on a fresh sender with generated settings (buffer 1..128 KiB, wait 1..10000 ms of record time, compression minimum 0..4 KiB) and a client that RETAINS the pack objects it is given; record contents 0..2x buffer, non-decreasing positive record times, one appended record in twenty unencodable (nil tag map: its encoding fails half way; nothing is asserted about it, it must not disturb the others); oracle = a model of the flush rule gives the expected batches: emitted packs hold exactly those batches in order, RecordCount = records contained, payload decodes (after gunzip iff flagged) to the records handed in, compressed iff payload >= minimum, and every retained pack still serialises at the end to what it was at hand-over; non-trivial = >= 2 batches and >= 1 uncompressed batch; distinct by case",
 	Quick: 400, Thorough: 40000,
 	Draw: func(t *rapid.T) SeqCase {
 		c := SeqCase{
@@ -305,7 +327,11 @@ var specSeq = pbt.Register(pbt.Spec[SeqCase]{
 			if k != "flush" {
 				m := rapid.IntRange(1, 6).Draw(t, "nrec")
 				for j := 0; j < m; j++ {
-					op.Recs = append(op.Recs, drawRec(t, c.Buf))
+					r := drawRec(t, c.Buf)
+					if k == "append" && rapid.IntRange(0, 19).Draw(t, "bad") == 0 {
+						r.Bad = true
+					}
+					op.Recs = append(op.Recs, r)
 				}
 			}
 			c.Ops = append(c.Ops, op)
@@ -515,3 +541,160 @@ var specQueue = pbt.Register(pbt.Spec[QueueCase]{
 })
 
 func TestQueueMode(t *testing.T) { specQueue.Check(t) }
+
+// ---- stop racing with producers (queue mode) ------------------------------------------------------------
+
+type StopCase struct {
+	Buf       int     `json:"buf"`
+	IdleMs    int     `json:"idle_ms"`
+	ZipMin    int     `json:"zipmin"`
+	Producers [][]Rec `json:"producers"`
+	StopAfter int     `json:"stop_after"` // the sender is stopped once this many Add calls have returned (all producers together)
+	DelayUs   int     `json:"delay_us"`   // plus this many microseconds
+}
+
+// runLoopAlive reports whether a goroutine is still inside the sender's run loop (any sender of this process;
+// every case stops its own sender, so at most the current one and ones that are about to exit are alive).
+func runLoopAlive() bool {
+	buf := make([]byte, 1<<20)
+	for {
+		n := runtime.Stack(buf, true)
+		if n < len(buf) {
+			buf = buf[:n]
+			break
+		}
+		buf = make([]byte, 2*len(buf))
+	}
+	return bytes.Contains(buf, []byte("zip.(*ZipSendProxyThread).run"))
+}
+
+func runStop(c StopCase) *pbt.Result {
+	cl := &recClient{retain: true}
+	z := zip.NewForVerif(cl, true, int64(c.IdleMs), 100000, c.Buf, c.ZipMin)
+	stopped := false
+	defer func() {
+		if !stopped {
+			z.StopForVerif()
+		}
+	}()
+	total := 0
+	perProducer := make([][][]byte, len(c.Producers))
+	var added atomic.Int64
+	var wg sync.WaitGroup
+	stopCh := make(chan struct{})
+	var once sync.Once
+	for pi, recs := range c.Producers {
+		total += len(recs)
+		packs := make([]*pack.LogSinkPack, len(recs))
+		tm := int64(1_700_000_000_000)
+		for i, r := range recs {
+			tm += r.Dt
+			packs[i] = mkRecord(r, tm, int64(pi)<<32|int64(i+1))
+			perProducer[pi] = append(perProducer[pi], encodeRec(packs[i]))
+		}
+		wg.Add(1)
+		go func(packs []*pack.LogSinkPack) {
+			defer wg.Done()
+			for _, p := range packs {
+				z.Add(p)
+				if added.Add(1) >= int64(c.StopAfter) {
+					once.Do(func() { close(stopCh) })
+				}
+			}
+		}(packs)
+	}
+	go func() { wg.Wait(); once.Do(func() { close(stopCh) }) }()
+	<-stopCh
+	if c.DelayUs > 0 {
+		time.Sleep(time.Duration(c.DelayUs) * time.Microsecond)
+	}
+	z.StopForVerif()
+	stopped = true
+	wg.Wait()
+	// wait until no goroutine is inside a run loop any more: from then on nothing is in flight
+	deadline := time.Now().Add(30 * time.Second)
+	for runLoopAlive() {
+		if time.Now().After(deadline) {
+			return &pbt.Result{Classes: []string{"inconclusive:run-loop-still-alive-after-30s"}}
+		}
+		time.Sleep(2 * time.Millisecond)
+	}
+	var rest [][]byte
+	for {
+		x := z.Queue.GetNoWait()
+		if x == nil {
+			break
+		}
+		rest = append(rest, encodeRec(x.(*pack.LogSinkPack)))
+	}
+	cl.mu.Lock()
+	var stream [][]byte
+	for i, snap := range cl.snapshot {
+		zp := pack.ToPack(append([]byte(nil), snap...)).(*pack.ZipPack)
+		recs, rawLen, err := decodePayload(zp)
+		if err != nil {
+			cl.mu.Unlock()
+			return pbt.Fail("emitted pack %d: %v", i, err)
+		}
+		if zp.RecordCount != len(recs) {
+			cl.mu.Unlock()
+			return pbt.Fail("emitted pack %d: RecordCount=%d, payload holds %d records", i, zp.RecordCount, len(recs))
+		}
+		if (zp.Status == pack.ZIPPED) != (rawLen >= c.ZipMin) {
+			cl.mu.Unlock()
+			return pbt.Fail("emitted pack %d: payload %d bytes, minimum %d, compressed=%v", i, rawLen, c.ZipMin, zp.Status == pack.ZIPPED)
+		}
+		if now := pack.ToBytesPack(cl.packs[i]); !bytes.Equal(now, snap) {
+			cl.mu.Unlock()
+			return pbt.Fail("pack %d was altered after hand-over", i)
+		}
+		stream = append(stream, recs...)
+	}
+	cl.mu.Unlock()
+	nEmitted := len(stream)
+	if nEmitted+len(rest) != total {
+		return pbt.Fail("%d records were handed to the sender; after it was stopped (%d Add calls had returned, +%d us) and its goroutine had ended, %d are emitted and %d are still in its queue: %d record(s) are neither", total, c.StopAfter, c.DelayUs, nEmitted, len(rest), total-nEmitted-len(rest))
+	}
+	next := make([]int, len(c.Producers))
+	for k, rec := range append(stream, rest...) {
+		matched := false
+		for pi := range perProducer {
+			if next[pi] < len(perProducer[pi]) && bytes.Equal(perProducer[pi][next[pi]], rec) {
+				next[pi]++
+				matched = true
+				break
+			}
+		}
+		if !matched {
+			return pbt.Fail("record %d of (emitted stream, then queue remainder) is not the next record of any producer (lost, duplicated or reordered)", k)
+		}
+	}
+	cls := []string{fmt.Sprintf("left-in-queue=%s", bucket(len(rest))), fmt.Sprintf("emitted=%s", bucket(nEmitted))}
+	return &pbt.Result{NT: nEmitted > 0 && nEmitted < total || len(rest) > 0, Classes: cls}
+}
+
+var specStop = pbt.Register(pbt.Spec[StopCase]{
+	Prop: "C16", Name: "queue-stop-race",
+	Rule:  "1-3 producer goroutines Add generated records to a fresh sender in queue mode (idle time-out 5-40 ms); the sender is stopped as soon as a generated number of Add calls have returned, plus 0 us .. twice the idle time-out, while the run() goroutine is taking records from the queue; once no goroutine is inside run() any more the emitted packs and the remainder of the queue are inspected; oracle (sound for any schedule) = every record is either emitted exactly once or still in the queue, (emitted stream, then queue remainder) keeps each producer's order, RecordCount/compression/decodability per pack, no pack altered after hand-over; non-trivial = the stop found records emitted and others not yet; distinct by case",
+	Quick: 120, Thorough: 4000,
+	Draw: func(t *rapid.T) StopCase {
+		c := StopCase{Buf: rapid.OneOf(rapid.IntRange(1, 2000), rapid.IntRange(1, 65536)).Draw(t, "buf"), IdleMs: rapid.IntRange(5, 40).Draw(t, "idle"), ZipMin: rapid.IntRange(0, 600).Draw(t, "zipmin")}
+		np := rapid.IntRange(1, 3).Draw(t, "producers")
+		tot := 0
+		for i := 0; i < np; i++ {
+			n := rapid.IntRange(1, 40).Draw(t, "n")
+			tot += n
+			var recs []Rec
+			for j := 0; j < n; j++ {
+				recs = append(recs, Rec{Content: rapid.IntRange(0, 300).Draw(t, "content"), Dt: rapid.Int64Range(0, 30).Draw(t, "dt"), Seed: rapid.Uint64().Draw(t, "seed")})
+			}
+			c.Producers = append(c.Producers, recs)
+		}
+		c.StopAfter = rapid.IntRange(1, tot).Draw(t, "stopafter")
+		c.DelayUs = rapid.OneOf(rapid.SampledFrom([]int{0, 0, 20, 100, 300, 1000, 3000}), rapid.IntRange(0, 2000*c.IdleMs)).Draw(t, "delay")
+		return c
+	},
+	Run: runStop,
+})
+
+func TestQueueStopRace(t *testing.T) { specStop.Check(t) }
